@@ -21,6 +21,8 @@ int main() {
   printf("opcode_mm_table");
   for (size_t i = 0; i < 16; i++) printf(" %u %u %u", unsigned(opcode_mm_table[i].size), unsigned(opcode_mm_table[i].data[0]), unsigned(opcode_mm_table[i].data[1]));
   printf("\n");
+  dump("opcode_push_sreg_table", opcode_push_sreg_table);
+  dump("opcode_pop_sreg_table", opcode_pop_sreg_table);
   dump("vex_prefix_table", vex_prefix_table);
   dump("ll_by_size_div_16_table", ll_by_size_div_16_table);
   dump("ll_by_reg_type_table", ll_by_reg_type_table);
@@ -33,6 +35,10 @@ int main() {
   printf("opcode_layout %u %u %u %u %u %u %u %u %u\n", unsigned(Opcode::kMM_Shift), unsigned(Opcode::kCDSHL_Shift), unsigned(Opcode::kCDTT_Shift),
          unsigned(Opcode::kModO_Shift), unsigned(Opcode::kPP_Shift), unsigned(Opcode::kW_Shift), unsigned(Opcode::kEvex_W_Shift), unsigned(Opcode::kLL_Shift),
          unsigned(Opcode::kMM_ForceEvex));
+  printf("inst_options %u %u %u %u %u %u %u %u %u %u %u %u %u %u\n", unsigned(InstOptions::kX86_ModMR), unsigned(InstOptions::kX86_ModRM),
+         unsigned(InstOptions::kX86_Vex3), unsigned(InstOptions::kX86_Vex), unsigned(InstOptions::kX86_Evex), unsigned(InstOptions::kX86_Lock),
+         unsigned(InstOptions::kX86_Rep), unsigned(InstOptions::kX86_Repne), unsigned(InstOptions::kX86_XAcquire), unsigned(InstOptions::kX86_XRelease),
+         unsigned(InstOptions::kX86_ER), unsigned(InstOptions::kX86_SAE), unsigned(InstOptions::kX86_ZMask), unsigned(InstOptions::kX86_Rex));
   for (uint32_t id = 1; id < Inst::_kIdCount; id++) {
     const InstDB::InstInfo& ii = InstDB::_inst_info_table[id];
     const InstDB::CommonInfo& ci = ii.common_info();
